@@ -91,6 +91,16 @@ fn case(m: usize, a: &[u64], b: &[u64]) -> Option<(String, String)> {
         for i in 0..m { if one.get_hsketch()[i] < mins[i] { mins[i] = one.get_hsketch()[i]; } }
     }
     if !a.is_empty() && s.get_hsketch() != &mins { return Some((format!("SuperMinHash(A) = {:?}", s.get_hsketch()), format!("position-wise min of single-item sketches {:?}", mins))); }
+    // the same with a sketcher that was used before and reinitialised (short histories leave the most state behind)
+    for hist in [1usize, 2, 3] {
+        let mut r = crate::superminhasher::SuperMinHash::<f64, u64, FnvHasher>::new(m, bh());
+        for i in 0..hist { r.sketch(&(7_000_003u64 + i as u64)).unwrap(); }
+        r.reinit();
+        for x in a { r.sketch(x).unwrap(); }
+        if !a.is_empty() && r.get_hsketch() != &mins {
+            return Some((format!("SuperMinHash reused after {hist} items and reinit: {:?}", &r.get_hsketch()[..m.min(8)]), format!("position-wise min of single-item sketches {:?}", &mins[..m.min(8)])));
+        }
+    }
     None
 }
 
